@@ -215,6 +215,8 @@ def main(argv=None):
         else:
             unknown.setdefault(v["key"], []).append(v)
 
+    if counters.get("case_timeouts"):
+        inconclusive.append(f"case-timeouts={counters['case_timeouts']}")
     # minimum counters: a run whose monitors did not observe enough cannot report HELD
     mins = meta.get("minimums", {}).get(tier, {})
     for k, need in mins.items():
